@@ -38,6 +38,11 @@ IGNORE_ARGS_OK = {
 }
 # names of the memoize primitives: re-derived from utils/memoize.py on every run (derive_memo_api); the literals are only
 # the pinned tree's names, kept for readers of this file
+# derived operators that receive a cached factorization of self, with the reason the transplanted value is valid for the NEW matrix
+REVIEWED_TRANSPLANTS = {
+    "add_low_rank": "root / inverse root of A + U U^T obtained from the cached roots of A by the exact low-rank update formulas",
+    "cat_rows": "root / inverse root of [[A, B^T], [B, C]] assembled blockwise from the cached roots of A and the Schur complement",
+}
 MEMO_WRITERS = {"add_to_cache", "_add_to_cache", "_add_to_cache_ignore_args"}
 MEMO_TESTS = {"_is_in_cache", "_is_in_cache_ignore_args", "_is_in_cache_ignore_all_args"}
 
@@ -100,16 +105,30 @@ def derive_key_shapes(idx: ProgramIndex) -> Dict[str, str]:
     out: Dict[str, str] = {}
     if m is None:
         return out
+    accessors = {n_ for n_, f_ in m.functions.items() if any(isinstance(r, ast.Return) and isinstance(r.value, ast.Attribute)
+                                                             and r.value.attr == "_memoize_cache" for r in ast.walk(f_.node))}
+    key_builders = {n_ for n_, f_ in m.functions.items() if any(isinstance(r, ast.Return) and isinstance(r.value, ast.Tuple)
+                                                                for r in ast.walk(f_.node))}
+
+    def is_cache(e: ast.AST) -> bool:
+        return (isinstance(e, ast.Attribute) and e.attr == "_memoize_cache") or (
+            isinstance(e, ast.Call) and isinstance(e.func, ast.Name) and e.func.id in accessors)
+
+    def is_tuple_key(e: ast.AST) -> bool:
+        return isinstance(e, ast.Tuple) or (isinstance(e, ast.Call) and isinstance(e.func, ast.Name) and e.func.id in key_builders)
+
     for name, fn in m.functions.items():
+        if name in accessors or name in key_builders:
+            continue
         for n in ast.walk(fn.node):
             if isinstance(n, ast.Assign):
                 for t in n.targets:
-                    if isinstance(t, ast.Subscript) and isinstance(t.value, ast.Attribute) and t.value.attr == "_memoize_cache":
-                        out[name] = "tuple" if isinstance(t.slice, ast.Tuple) else "bare"
+                    if isinstance(t, ast.Subscript) and is_cache(t.value):
+                        out[name] = "tuple" if is_tuple_key(t.slice) else "bare"
             if isinstance(n, ast.Compare) and len(n.ops) == 1 and isinstance(n.ops[0], ast.In):
                 c = n.comparators[0]
-                if isinstance(c, ast.Attribute) and c.attr == "_memoize_cache":
-                    out.setdefault(name, "tuple" if isinstance(n.left, ast.Tuple) else "bare")
+                if is_cache(c):
+                    out.setdefault(name, "tuple" if is_tuple_key(n.left) else "bare")
                 elif isinstance(c, (ast.ListComp, ast.GeneratorExp)) and "_memoize_cache" in norm(c) and "[0]" in norm(c.elt):
                     out.setdefault(name, "tuple-any")
     # public wrappers inherit from the primitive they call
@@ -696,6 +715,51 @@ def run(idx: ProgramIndex, rep: Report, tier: str, selftest: bool = True):
     from ..recordmut import report_denotation_container_mutations
 
     report_denotation_container_mutations(idx, rep, PROP, "C12.D")
+
+    # ---------------------------------------------------------------- T
+    # "operators derived from an existing one carry over a cached factorization only if it is a valid factorization of the
+    # new matrix": who may transplant.  A store into the cache of ANOTHER object than self is a transplant; whether the
+    # transplanted value is a factorization of the new matrix is algebra this analysis cannot do, so the sites are a reviewed
+    # table and any transplant outside the code reachable from them is reported for review.
+    rep.rule("C12.T", "cached factorizations are carried over to derived operators only at the reviewed sites", floor=4)
+    base = idx.operator_base()
+    entries = [f for nm, why in REVIEWED_TRANSPLANTS.items() for f in [base.methods.get(nm)] if f is not None]
+    if len(entries) < len(REVIEWED_TRANSPLANTS):
+        raise AnalysisError(f"reviewed transplant sites not found on the base class: {sorted(REVIEWED_TRANSPLANTS)}")
+    reach = {f.qualname for f in entries}
+    work = list(entries)
+    while work:
+        f_ = work.pop()
+        for n in walk_body(f_):
+            if not isinstance(n, ast.Call):
+                continue
+            tgt = None
+            if isinstance(n.func, ast.Name):
+                tgt = idx.function_of_expr(f_.module, n.func)
+            elif isinstance(n.func, ast.Attribute) and isinstance(n.func.value, ast.Name) and n.func.value.id == "self" and f_.cls is not None:
+                tgt = idx.resolve_method(f_.cls, n.func.attr)
+            if tgt is not None and tgt.qualname not in reach and tgt.module is f_.module and tgt.name.startswith("_"):
+                reach.add(tgt.qualname)
+                work.append(tgt)
+    for fn in idx.functions:
+        if fn.module.name == "linear_operator.utils.memoize" or fn.module.name.startswith("linear_operator.test"):
+            continue
+        self_name = fn.params()[0] if (fn.cls is not None and fn.params()) else None
+        for n in walk_body(fn):
+            if not (isinstance(n, ast.Call) and (dotted(n.func) or "").split(".")[-1] in MEMO_WRITERS and n.args):
+                continue
+            obj = n.args[0]
+            if isinstance(obj, ast.Name) and obj.id == self_name:
+                continue
+            sample = {"function": fname(fn), "transplant": short(n, 80), "reviewed_site": fn.qualname in reach}
+            if fn.qualname in reach:
+                rep.ok("C12.T", sample)
+            else:
+                rep.bad("C12.T", Finding(PROP, "C12.T", fname(fn), norm(n)[:100],
+                                         f"{fname(fn)} stores a cached result into the cache of another operator (`{short(n, 70)}`): a "
+                                         "factorization is carried over to a derived operator outside the reviewed transplant sites "
+                                         f"({', '.join(sorted(REVIEWED_TRANSPLANTS))}); whether it is a valid factorization of the NEW matrix "
+                                         "has to be argued (and, if it is, the site added to the table with its reason)", fn.loc(n)), sample)
     if selftest:
         from ..selftest import run_fixtures
 
